@@ -1,4 +1,5 @@
 import OxiVerif.Lemmas.C28
+import OxiVerif.Lemmas.C28Dest
 /-!
 # C28 — outlines written are navigable as authored (ISO 32000-1 §12.3.3, Tables 152/153)
 
@@ -83,6 +84,110 @@ theorem C28_ids_distinct (r : Nat) (pool : List Nat) (items : List Item)
 
 example : (Impl.write 0 [4, 5, 6] [.mk true [.mk true []], .mk true []]).2.map (·.id) = [4, 5, 6] := by
   decide
+
+/-! ## destinations (`structure/destination.rs`, ISO 32000-1 Table 151) -/
+
+/-- The array `Destination::to_array` produces, read per Table 151, is the authored destination:
+same page designator, same fit type, same parameters (null where none was given) — for every
+destination of every kind. -/
+theorem C28_dest_array_reads_back (d : Dest) :
+    Spec.readDest d.toArray = some (Spec.ofDest d) := by
+  obtain ⟨page, ty⟩ := d
+  cases ty with
+  | xyz l t z => cases l <;> cases t <;> cases z <;> simp [Dest.toArray, Spec.readDest, Spec.ofDest, optReal]
+  | fit => simp [Dest.toArray, Spec.readDest, Spec.ofDest]
+  | fitH t => cases t <;> simp [Dest.toArray, Spec.readDest, Spec.ofDest, optReal]
+  | fitV l => cases l <;> simp [Dest.toArray, Spec.readDest, Spec.ofDest, optReal]
+  | fitR l b r t => simp [Dest.toArray, Spec.readDest, Spec.ofDest]
+  | fitB => simp [Dest.toArray, Spec.readDest, Spec.ofDest]
+  | fitBH t => cases t <;> simp [Dest.toArray, Spec.readDest, Spec.ofDest, optReal]
+  | fitBV l => cases l <;> simp [Dest.toArray, Spec.readDest, Spec.ofDest, optReal]
+
+example : Spec.readDest (Dest.toArray ⟨.num 3, .xyz (some 100250000) none (some (-1))⟩)
+    = some (.int 3, "XYZ", [some 100250000, none, some (-1)]) := by decide
+
+/-- `Destination::from_array` undoes `Destination::to_array` for every destination whose page
+number fits `u32` (page references always). -/
+theorem C28_dest_roundtrip (d : Dest)
+    (hp : ∀ n, d.page = .num n → n < 4294967296) :
+    Dest.fromArray d.toArray = some d := by
+  obtain ⟨page, ty⟩ := d
+  cases page with
+  | ref r =>
+    cases ty with
+    | xyz l t z =>
+      cases l <;> cases t <;> cases z <;> simp [Dest.toArray, Dest.fromArray, el, optReal, optParam]
+    | fit => simp [Dest.toArray, Dest.fromArray, el]
+    | fitH t => cases t <;> simp [Dest.toArray, Dest.fromArray, el, optReal, optParam]
+    | fitV l => cases l <;> simp [Dest.toArray, Dest.fromArray, el, optReal, optParam]
+    | fitR l b r t => simp [Dest.toArray, Dest.fromArray, el, reqParam]
+    | fitB => simp [Dest.toArray, Dest.fromArray, el]
+    | fitBH t => cases t <;> simp [Dest.toArray, Dest.fromArray, el, optReal, optParam]
+    | fitBV l => cases l <;> simp [Dest.toArray, Dest.fromArray, el, optReal, optParam]
+  | num n =>
+    have hn : asU32 (n : Int) = n := asU32_ofNat n (hp n rfl)
+    cases ty with
+    | xyz l t z =>
+      cases l <;> cases t <;> cases z <;>
+        simp [Dest.toArray, Dest.fromArray, el, optReal, optParam, hn]
+    | fit => simp [Dest.toArray, Dest.fromArray, el, hn]
+    | fitH t => cases t <;> simp [Dest.toArray, Dest.fromArray, el, optReal, optParam, hn]
+    | fitV l => cases l <;> simp [Dest.toArray, Dest.fromArray, el, optReal, optParam, hn]
+    | fitR l b r t => simp [Dest.toArray, Dest.fromArray, el, reqParam, hn]
+    | fitB => simp [Dest.toArray, Dest.fromArray, el, hn]
+    | fitBH t => cases t <;> simp [Dest.toArray, Dest.fromArray, el, optReal, optParam, hn]
+    | fitBV l => cases l <;> simp [Dest.toArray, Dest.fromArray, el, optReal, optParam, hn]
+
+example : Dest.fromArray (Dest.toArray ⟨.num 4294967295, .fitR 0 (-250000) 595275590 841889764⟩)
+    = some ⟨.num 4294967295, .fitR 0 (-250000) 595275590 841889764⟩ := by decide
+
+/-! ## named destinations (`structure/name_tree.rs`, ISO 32000-1 §7.9.6, §12.3.2.3)
+
+For every sequence of `add_destination` calls, over any key order that is a strict total order
+(`ltBytes_strictTotal`: the byte-wise order of `String` is one). -/
+
+/-- The `/Names` array is written with strictly ascending keys. -/
+theorem C28_names_sorted {κ ν : Type} (lt : κ → κ → Bool) (st : StrictTotal lt)
+    (adds : List (κ × ν)) : Spec.ascending lt (NT.build lt adds).names = true := by
+  apply ascending_of_sorted
+  exact (build_invariant lt st adds NT.new List.Pairwise.nil rfl).1
+
+/-- `/Limits` is `[least key, greatest key]` of the written array (absent for an empty tree),
+although the code maintains it separately from the map. -/
+theorem C28_names_limits {κ ν : Type} (lt : κ → κ → Bool) (st : StrictTotal lt)
+    (adds : List (κ × ν)) :
+    (NT.build lt adds).limits =
+      match keyHead (NT.build lt adds).names, keyLast (NT.build lt adds).names with
+      | some a, some b => some (a, b)
+      | _, _ => none :=
+  (build_invariant lt st adds NT.new List.Pairwise.nil rfl).2
+
+/-- Every name resolves to the destination authored for it last — both through the library's
+`get_destination` and through a reader's scan of the written `/Names` pairs; names never added
+resolve to nothing. -/
+theorem C28_names_resolve {κ ν : Type} [DecidableEq κ] (lt : κ → κ → Bool) (st : StrictTotal lt)
+    (adds : List (κ × ν)) (q : κ) :
+    (NT.build lt adds).get q = Spec.authored adds q ∧
+    Spec.lookupWritten (NT.build lt adds).names q = Spec.authored adds q := by
+  have h : (NT.build lt adds).get q = Spec.authored adds q := by
+    unfold NT.get NT.build
+    rw [foldl_add_names, get_foldl lt st, authoredFrom_eq]
+    simp [Spec.authored, NT.new]
+  refine ⟨h, ?_⟩
+  rw [lookupWritten_eq]
+  exact h
+
+/-- the instance the writer uses: `String` keys compared byte-wise -/
+theorem C28_names_bytes (adds : List (List Nat × Dest)) (q : List Nat) :
+    Spec.ascending ltBytes (NT.build ltBytes adds).names = true ∧
+    Spec.lookupWritten (NT.build ltBytes adds).names q = Spec.authored adds q :=
+  ⟨C28_names_sorted ltBytes ltBytes_strictTotal adds,
+   (C28_names_resolve ltBytes ltBytes_strictTotal adds q).2⟩
+
+example :
+    let t := NT.build ltBytes [([105], 2), ([73], 0), ([97], 1), ([105], 7), ([], 9)]
+    t.names = [([], 9), ([73], 0), ([97], 1), ([105], 7)] ∧ t.limits = some ([], [105]) ∧
+    t.get [105] = some 7 ∧ t.get [106] = none := by decide
 
 /-! ## the code before the repairs -/
 
